@@ -8,9 +8,21 @@ set -u
 src=$(readlink -f "$1"); sid=$2; shift 2; props="$*"
 export GOFLAGS=-mod=mod GOPROXY=off GOSUMDB=off GOTOOLCHAIN=local
 [ -n "$(git -C /repo status --porcelain)" ] && { echo "/repo not clean"; exit 3; }
-wt=/tmp/seedwt-$sid; rm -rf $wt; git -C /repo worktree add -q --detach $wt HEAD || exit 3
+prev=${SEED_CONFIRM_FROM:-}/$sid/meta.json
+if [ -n "${SEED_CONFIRM_FROM:-}" ] && [ -f "$prev" ]; then
+  # the confirmation (suite, demonstration with and without the change) was done by an earlier evaluation of the
+  # same files against the same /repo commit: take it from there and only re-run the checks
+  SKIP=1
+  ok_clean=$(jq -r .confirmed.demo_passes_on_pristine $prev); ok_mut=$(jq -r .confirmed.demo_fails_with_change $prev); ok_suite=$(jq -r .confirmed.suite_passes_with_change $prev)
+  demo_dir=$(jq -r .demo_package_dir $prev)
+  cmp -s $src/patch.diff ${SEED_CONFIRM_FROM}/$sid/patch.diff || { echo "patch differs from the confirmed one"; exit 3; }
+  echo "confirmed (earlier evaluation): demo_passes_on_pristine=$ok_clean demo_fails_with_change=$ok_mut suite_passes_with_change=$ok_suite"
+fi
+wt=/tmp/seedwt-$sid
 cleanup() { git -C /repo checkout -- . 2>/dev/null; git -C /repo clean -fdq 2>/dev/null; git -C /repo worktree remove --force $wt 2>/dev/null; }
 trap cleanup EXIT
+if [ -z "${SKIP:-}" ]; then
+rm -rf $wt; git -C /repo worktree add -q --detach $wt HEAD || exit 3
 demo_dir=$(head -3 $src/demo_test.go | grep -oE '(xmss|dilithium|misc|common|qrl|qrllib-js/[a-z]+)' | head -1)
 [ -z "$demo_dir" ] && demo_dir=$(grep -m1 '^package ' $src/demo_test.go | awk '{print $2}' | sed 's/_test$//')
 case "$demo_dir" in xmssjs) demo_dir=qrllib-js/xmssjs;; dilithiumjs) demo_dir=qrllib-js/dilithiumjs;; esac
@@ -32,6 +44,7 @@ ok_suite=1; echo "$suite" | grep -qE 'FAIL|panic' && ok_suite=0
 [ -n "$build" ] && ok_suite=0
 echo "confirmed: demo_passes_on_pristine=$ok_clean demo_fails_with_change=$ok_mut suite_passes_with_change=$ok_suite"
 git -C /repo worktree remove --force $wt
+fi
 # run the checks against /repo with the patch applied
 git -C /repo apply $src/patch.diff || exit 3
 results=""
